@@ -146,6 +146,7 @@ func genAltCase(e *Env) *jAltCase {
 }
 
 func runAltCase(e *Env, c *jAltCase) error {
+	e.Running(c)
 	dir := tempDir()
 	defer rmDir(dir)
 	t := c.Table // current definition (copy)
